@@ -47,6 +47,16 @@ def teams(tier):
                             yield {"kind": "alt", "L": L, "alap": alap, "m": m, "k": k, "eff2": eff2, "nalt": nalt}
 
 
+def longsums(tier):
+    """many whole slots at a per-slot gain that is not representable in binary: the task fills its last slot EXACTLY, so the running
+    float sum of the gains meets the typed effort only up to rounding (a tolerance that is a little too tight books a sliver of
+    the next working slot, a little too loose ends a slot early)"""
+    for eff, L in ((0.3, 60), (0.6, 60), (0.7, 60), (0.9, 60), (1.1, 60), (1.0, 20), (1.0, 10), (0.7, 20), (1.0, 5)):
+        for k in (10, 12, 14, 17, 20, 24, 30, 40):
+            for alap in (False, True):
+                yield {"kind": "longsum", "eff": eff, "L": L, "k": k, "alap": alap}
+
+
 def team_blockers(tier):
     """A team task spanning several slots meets a pinned, higher-priority sub-slot task that holds part of a
     later slot on ONE member (either position in the allocate list)."""
@@ -99,6 +109,11 @@ def to_spec(it):
                 t["deps"] = ["pre"]
         tasks.append(t)
         base.update(resources=[{"id": "r1", "eff": it["eff"]}], tasks=tasks)
+    elif k == "longsum":
+        from fractions import Fraction
+        minutes = Fraction(str(it["eff"])) * it["k"] * it["L"]        # exact effort = k slots at that efficiency
+        eff_txt = f"{int(minutes)}min" if minutes.denominator == 1 else f"{float(minutes)}min"
+        base.update(resources=[{"id": "r1", "eff": it["eff"]}], tasks=[{"id": "x", "effort": eff_txt, "alloc": ["r1"]}, {"id": "after", "effort": 30, "alloc": ["r1"], "deps": ["x"]}])
     elif k == "teamlim":
         x = {"id": "x", "effort": it["m"], "alloc": ["r1", "r2"]}
         rs = [{"id": "r1"}, {"id": "r2"}]
@@ -184,6 +199,7 @@ def universe(tier):
     yield from singles(tier)
     yield from teams(tier)
     yield from team_blockers(tier)
+    yield from longsums(tier)
     yield from c01.projects(tier)
 
 
